@@ -401,6 +401,8 @@ def _mshape(ty):
         from .mlist import record_shape
         iface = ty.iface() if isinstance(ty.iface, types.FunctionType) else ty.iface
         return record_shape(iface)
+    if isinstance(ty, Opaq):
+        return ('obj',)      # arbitrary objects, by handle (pyvc.mlist.handle_of)
     raise Unsupported('MListOf element type %r' % (ty,))
 
 
@@ -425,6 +427,24 @@ class Measure:
 
     def __repr__(self):
         return '<Measure %s>' % self.name
+
+
+class PDictOf(Ty):
+    """A dictionary over a fixed universe of concrete keys with symbolic presence (pyvc.pdict.PDict); values
+    of shape `value` (MListOf(...)).  In loop frames it is havocked in place."""
+
+    def __init__(self, universe, value):
+        self.universe = tuple(universe)
+        self.value = value
+
+    def make(self, interp, name):
+        from .pdict import PDict
+        d = PDict(interp, interp.st.fresh_name(name), self.universe, self.value)
+        d.havoc(interp, 'in')
+        return d
+
+    def havoc_in_place(self, interp, obj, tag):
+        obj.havoc(interp, tag)
 
 
 class IterOf(Ty):
@@ -561,10 +581,12 @@ class InPlace:
 
 
 class InPlaceBy:
-    """`modifies` entry: the object is havocked in place by fn(interp, obj, tag) (engine API)."""
+    """`modifies` entry: the object is havocked in place by fn(interp, obj, tag) (engine API).
+    whole=True: fn makes the whole object arbitrary, so a loop body may store to any of its fields."""
 
-    def __init__(self, fn):
+    def __init__(self, fn, whole=False):
         self.fn = fn
+        self.whole = whole
 
     def havoc_in_place(self, interp, obj, tag):
         self.fn(interp, obj, tag)
@@ -778,7 +800,7 @@ def assume_pred(interp, pred, *args, unscoped=False):
         if n not in interp.reg.ghost_env:
             raise Unsupported('predicate %s needs ghost %r which is not in scope' % (getattr(pred, '__name__', pred), n))
         extra.append(interp.reg.ghost_env[n])
-    v = interp.truth(interp.call(pred, list(args) + extra, {}))
+    v = interp.truth(interp.call_assumed(pred, list(args) + extra, {}))
     if unscoped:
         interp.st.assume_unscoped(v)
     else:
@@ -839,6 +861,7 @@ class Registry:
         self.ghost_env = {}
         self.transparent = set()
         self.missing = []
+        self.abstractions = {}     # spec function -> (when(interp), make(interp, args, kwargs))
         self.local_shapes = {}     # FuncInfo -> {local name: MListOf}
 
     # ----- registration ---------------------------------------------------------
@@ -1007,6 +1030,11 @@ class Registry:
         return True
 
     def opaque_eq(self, interp, a, b):
+        # an interface may name an attribute that stands for the value of its objects (`eq_attr`):
+        # two such objects are equal iff that attribute is
+        ea = getattr(a._pv_iface, 'eq_attr', None)
+        if ea is not None and isinstance(b, Opaque) and getattr(b._pv_iface, 'eq_attr', None) == ea:
+            return interp.eq(self.opaque_getattr(interp, a, ea), self.opaque_getattr(interp, b, ea))
         return NotImplemented
 
     def opaque_iter(self, interp, o):
@@ -1268,13 +1296,21 @@ class Contract:
         self.yields = yields                # generator functions: shape of the items (ListOf(...)) for call sites
         self.event = event                  # ghost event emitted at call sites that use the contract
         self.inline = inline                # verified, but call sites interpret the body (tiny helpers)
+        self.pure_result = pure_result      # the result is a function of the (scalar) arguments: same arguments, same result
         self.func = None
         self.owner = None
         self.raw = None
 
 
 class LoopSpec:
-    def __init__(self, qname, ordinal, invariant, modifies=None, decreases=None, ghosts=None, note='', entry=None):
+    def __init__(self, qname, ordinal, invariant, modifies=None, decreases=None, ghosts=None, note='', entry=None,
+                 pre=None, step=None):
+        # pre / step: a relation every iteration must satisfy.  `pre` is evaluated at the start of the arbitrary
+        # iteration (after the invariant and the guard are assumed), `step` -- a predicate over `pre` and the
+        # names the invariant may use -- is an obligation at its end.  It says what ONE iteration does, which an
+        # invariant (a property of the state reached, not of how) cannot.
+        self.pre = pre
+        self.step = step
         self.qname = qname
         self.ordinal = ordinal
         self.invariant = invariant
@@ -1299,6 +1335,7 @@ class Module:
         #   against them) and interpret the real body otherwise; 'apply' use every contract; 'fit' only when
         #   the arguments have the shapes the contract is stated for; 'ignore' never
         self.foreign_contracts = 'imports'
+        self.string_alignment = False   # pyvc.strings: align cuts / single-character searches with known pieces
         self.bounded_checks = []   # bounded stand-ins: (name, fn(ctx)) -- never counted as proved
         self.transparent = []
         self.assumptions = []
@@ -1320,6 +1357,14 @@ class Module:
 
     def model(self, f, m):
         self.models[f] = m
+
+    def abstract(self, f, when, make):
+        """Abstraction barrier for a spec function: where `when(interp)` holds, a call of f is answered by
+        `make(interp, args, kwargs)` (typically an application of an uninterpreted function to the arguments)
+        instead of interpreting its definition; elsewhere f is an ordinary spec function."""
+        if not hasattr(self, 'abstractions'):
+            self.abstractions = {}
+        self.abstractions[f] = (when, make)
 
     def check(self, name):
         def deco(fn):
